@@ -65,13 +65,29 @@ def split_top(s, sep=","):
     return out
 
 
+PROMOTED = {}      # (function name, index) -> (enum path, variant) for promoted constants that are a reference to a field-less enum value
+
+
 def parse_mir(path):
     funcs = {}
     cur = None
     block = None
+    prom = None
     with open(path) as f:
         for raw in f:
             line = raw.rstrip("\n")
+            pm = re.match(r"^const (.*)::promoted\[(\d+)\]: &.* = \{$", line)
+            if pm:
+                prom = (pm.group(1), int(pm.group(2)))
+                cur = None
+                continue
+            if prom is not None:
+                em = re.match(r"^\s+_1 = ([\w:]+)::(\w+);", line)
+                if em:
+                    PROMOTED[prom] = (em.group(1), em.group(2))
+                if line == "}":
+                    prom = None
+                continue
             if line.startswith("fn "):
                 m = re.match(r"^fn (.*?)\((.*)\) -> (.*) \{$", line)
                 if not m:
@@ -578,6 +594,15 @@ class Executor:
         if t.startswith("no_retag "):
             t = t[len("no_retag "):]
         if t.startswith("const "):
+            pm = re.search(r"::promoted\[(\d+)\]$", t)
+            if pm and (fn.name, int(pm.group(1))) in PROMOTED:
+                # `&Enum::Variant` promoted to a constant of the current function: its discriminant is known
+                r = self.const_val(t[6:], sort_hint)
+                en, var = PROMOTED[(fn.name, int(pm.group(1)))]
+                table = KNOWN_ENUMS.get(en.split("::")[-1]) or self.enum_table(en)
+                if table and var in table and not isinstance(r, Val) and r[0] == "ref":
+                    st.store[r[1].key() + "#discr"] = Val(bvconst(table.index(var), 64), ("bv", 64, True))
+                return r
             return self.const_val(t[6:], sort_hint)
         m = re.match(r"^(copy|move) (.*)$", t)
         if not m:
@@ -996,6 +1021,12 @@ class Executor:
                 and not isinstance(args[0], Val) and args[0][0] == "agg":
             # VarInt(u64) -> u64: the only field
             return self.read_key(st, args[0][1].key() + ".0", ("bv", 64, False))
+        m = re.search(r"^<(SpaceId|Dir|Side|Timer) as (?:std::cmp::)?PartialEq>::(eq|ne)$", short)
+        if m and st is not None and len(args) == 2 and all(not isinstance(a, Val) and a[0] == "ref" for a in args):
+            # derived equality of a field-less enum behind references: equality of the discriminants
+            i64 = ("bv", 64, True)
+            e = "(= %s %s)" % (self.read_key(st, args[0][1].key() + "#discr", i64).t, self.read_key(st, args[1][1].key() + "#discr", i64).t)
+            return Val(e if m.group(2) == "eq" else "(not %s)" % e, ("bool",))
         m = re.search(r"raw_eq::<\[u8; (\d+)\]>$", callee)
         if m and st is not None and int(m.group(1)) <= 32 and len(args) == 2 and all(not isinstance(a, Val) and a[0] == "ref" for a in args):
             # bytewise comparison of two fixed arrays behind references
